@@ -24,7 +24,7 @@ func envOr(k, d string) string {
 
 func main() {
 	if len(os.Args) < 2 {
-		fmt.Fprintln(os.Stderr, "usage: govc <verify|check|selftest|list> ...")
+		fmt.Fprintln(os.Stderr, "usage: govc <verify|check|sweep|list> ...")
 		os.Exit(2)
 	}
 	verifDir = envOr("VERIF_DIR", verifDir)
@@ -36,8 +36,8 @@ func main() {
 		cmdCheck(os.Args[2:])
 	case "list":
 		cmdList(os.Args[2:])
-	case "selftest":
-		cmdSelftest(os.Args[2:])
+	case "sweep":
+		cmdSweep(os.Args[2:])
 	default:
 		fmt.Fprintln(os.Stderr, "unknown command", os.Args[1])
 		os.Exit(2)
